@@ -39,6 +39,13 @@ def representations(b, rng):
             s['coefficients'] = [[str(Decimal(c.strip()) * f) for c in col] for col, f in
                                  ((col, Decimal(rng.choice(['0.5', '2', '4', '0.25']))) for col in s['coefficients'])]
     reps.append(('scaled', sc))
+    # every number written in one canonical notation (equal values then have equal strings, however the source spelled them)
+    cn = copy.deepcopy(b)
+    for el in cn['elements'].values():
+        for s in el.get('electron_shells', []):
+            s['exponents'] = [format(Decimal(x.strip()).normalize(), 'f') if abs(Decimal(x.strip()).adjusted()) < 30 else str(Decimal(x.strip()).normalize()) for x in s['exponents']]
+            s['exponents'] = [x if '.' in x or 'E' in x else x + '.0' for x in s['exponents']]
+    reps.append(('canonical-notation', cn))
     # the elements of the dictionary in another order (dictionaries of a reader / hand-made ones are not sorted by Z)
     ro = copy.deepcopy(b)
     ro['elements'] = dict(reversed(list(ro['elements'].items())))
